@@ -70,10 +70,14 @@ async function drain() {
   // a dynamic import of a chunk on disk needs real I/O turns: wait with short timers until the trace has
   // been quiet for a while
   let last = -1, idle = 0;
-  for (let i = 0; i < 400 && idle < 6; i++) {
+  for (let i = 0; i < 2000 && idle < 8; i++) {
     await new Promise((r) => setTimeout(r, 2));
     await new Promise((r) => setImmediate(r));
-    if (trace.length === last) idle++; else idle = 0;
+    // pending file-system requests (the module loader reading a chunk) mean that something is still coming,
+    // however long the machine takes: a loaded machine must not lose the events of a dynamic import
+    const busy = typeof process.getActiveResourcesInfo === 'function' &&
+      process.getActiveResourcesInfo().some((x) => /^FSReq/.test(x));
+    if (trace.length === last && !busy) idle++; else idle = 0;
     last = trace.length;
   }
 }
